@@ -1,6 +1,8 @@
 package arrow_record
 
 import (
+	"sync"
+
 	"go.opentelemetry.io/collector/pdata/pcommon"
 	"go.opentelemetry.io/collector/pdata/plog"
 	"go.opentelemetry.io/collector/pdata/pmetric"
@@ -193,4 +195,42 @@ func VerifHarness_C16_independent() {
 	rt.WatchEnd()
 	// and A is still usable and correct after B ran
 	verifRoundTrip(pa, ca, verifFixedTraces(3, true), "C16.A_after_B")
+}
+
+// VerifHarness_C16_race: two producer/consumer pairs are created and driven by two goroutines at the same time
+// (B with symbolic options), under the engine's happens-before race detector: no heap cell or map may be
+// accessed by both goroutines with at least one write and no synchronisation in between - i.e. the pairs share
+// no mutable state - on every schedule within the delay bound; and each pair decodes what it encoded.
+func VerifHarness_C16_race() {
+	rt.RaceBegin()
+	opt := rt.Int("optionsOfB")
+	rt.Assume(opt >= 0)
+	rt.Assume(opt <= 3)
+	richA, richB := rt.Bool("richA"), rt.Bool("richB")
+	var wg sync.WaitGroup
+	wg.Add(2)
+	go func() {
+		defer wg.Done()
+		pa, ca := verifProducer(), verifConsumer()
+		for b := 0; b < 2; b++ {
+			verifRoundTrip(pa, ca, verifFixedTraces(b, richA || b == 1), "C16.A")
+			verifRoundTripLogs(pa, ca, verifFixedLogs(b, richA || b == 1), "C16.A")
+			verifRoundTripMetrics(pa, ca, verifFixedMetrics(b, richA || b == 1), "C16.A")
+		}
+		_ = pa.Close()
+		ca.Close()
+	}()
+	go func() {
+		defer wg.Done()
+		pb, cb := verifProducerOpt(opt), verifConsumer()
+		for b := 0; b < 2; b++ {
+			verifRoundTrip(pb, cb, verifFixedTraces(10+b, richB), "C16.B")
+			verifRoundTripLogs(pb, cb, verifFixedLogs(10+b, richB), "C16.B")
+			verifRoundTripMetrics(pb, cb, verifFixedMetrics(10+b, richB), "C16.B")
+		}
+		_ = pb.Close()
+		cb.Close()
+	}()
+	wg.Wait()
+	rt.Assert(rt.RaceCount() == 0, "C16.race.no_data_race_between_pairs")
 }
